@@ -208,6 +208,51 @@ func checkC03(c *Ctx) {
 		}
 		return false
 	}
+	// the entry replaced as a whole by the result of a library helper: p.Datadir = f(p.Datadir, ...)
+	transformerOf := func(st *ssa.Store) *ssa.Call {
+		_, whole := st.Addr.(*ssa.Alloc)
+		if !whole && ir.FieldID(st.Addr) != acPkg+".PECOFFBinary.Datadir" {
+			return nil
+		}
+		call, isCall := st.Val.(*ssa.Call)
+		if !isCall || ir.NamedTypeID(call.Type()) != "debug/pe.DataDirectory" {
+			return nil
+		}
+		if callee := ir.Callee(call); callee == nil || callee.Blocks == nil || !c.P.InLib(callee) {
+			return nil
+		}
+		return call
+	}
+	// the argument in which the helper receives the entry as it is (-1: none)
+	entryArgOf := func(call *ssa.Call) int {
+		for k, a := range call.Call.Args {
+			ld, isLd := a.(*ssa.UnOp)
+			if !isLd || ld.Op != token.MUL || ir.NamedTypeID(ld.Type()) != "debug/pe.DataDirectory" || !isEntry(ld.X) {
+				continue
+			}
+			if _, isCell := ld.X.(*ssa.Alloc); isCell || ir.FieldID(ld.X) == acPkg+".PECOFFBinary.Datadir" {
+				return k
+			}
+		}
+		return -1
+	}
+	var helperVAs []*ssa.Store // address assignments made in such helpers
+	var helperVACall = map[*ssa.Store]*ssa.Call{}
+	instrsOf(fn, func(i ssa.Instruction) {
+		if st, ok := i.(*ssa.Store); ok && isEntry(st.Addr) {
+			if tc := transformerOf(st); tc != nil {
+				sizeInRoot = true
+				if _, vs, okT := dirTransform(tc, entryArgOf(tc), dirState{cur: symAffine("OLD", nil)}); okT {
+					for _, v := range vs {
+						if helperVACall[v] == nil {
+							helperVAs = append(helperVAs, v)
+							helperVACall[v] = tc
+						}
+					}
+				}
+			}
+		}
+	})
 	paths, complete := successPaths(fn, 256)
 	if !sizeInRoot {
 		c.R.Infof("M2.conserve", fname, "table+directory-paths", c.Pos(fn.Pos()), "not decided for this shape: the directory Size is not updated by stores in AppendSignature itself")
@@ -217,89 +262,116 @@ func checkC03(c *Ctx) {
 	}
 	undecidedPath := false
 	for _, path := range paths {
-		cur := symAffine("OLD", nil)
-		newTable := false
-		touched := false
+		// the states the entry can be in along this path of AppendSignature: one, or one
+		// per path of a helper that takes the entry by value and returns the updated entry
+		states := []dirState{{cur: symAffine("OLD", nil)}}
 		for _, blk := range path {
 			for _, in := range blk.Instrs {
 				st, ok := in.(*ssa.Store)
 				if !ok || !isEntry(st.Addr) {
 					continue
 				}
-				switch ir.FieldID(st.Addr) {
-				case vaField:
-					newTable = true
-				case sizeField:
-					touched = true
-					a := affineOf(st.Val, 0)
-					next := newAffine()
-					next.K = a.K
-					for sym, cf := range a.T {
-						if isOldSize(sym, a.Sym[sym]) {
-							next = next.add(cur.scale(cf), 1)
-						} else {
-							next = next.add(symAffine(sym, a.Sym[sym]).scale(cf), 1)
+				if tc := transformerOf(st); tc != nil {
+					var next []dirState
+					for _, s := range states {
+						outs, _, okT := dirTransform(tc, entryArgOf(tc), s)
+						if !okT {
+							next = nil
+							break
+						}
+						next = append(next, outs...)
+					}
+					if len(next) == 0 || len(next) > 64 {
+						c.R.Infof("M2.conserve", fname, "table+directory-paths", c.IPos(tc), "not decided for this shape: the entry is replaced by the result of "+name(ir.Callee(tc))+", which is not evaluated path by path")
+						undecidedPath = true
+						states = nil
+					} else {
+						states = next
+					}
+					continue
+				}
+				for k := range states {
+					switch ir.FieldID(st.Addr) {
+					case vaField:
+						states[k].newTable = true
+					case sizeField:
+						states[k].touched = true
+						a := affineOf(st.Val, 0)
+						next := newAffine()
+						next.K = a.K
+						for sym, cf := range a.T {
+							if isOldSize(sym, a.Sym[sym]) {
+								next = next.add(states[k].cur.scale(cf), 1)
+							} else {
+								next = next.add(symAffine(sym, a.Sym[sym]).scale(cf), 1)
+							}
+						}
+						states[k].cur = next
+					}
+				}
+			}
+		}
+		for _, fs := range states {
+			cur, newTable, touched := fs.cur, fs.newTable, fs.touched
+			var olds, lens, pads int64
+			if lengthVal != nil {
+				// dwLength computed once and used as a value: take its expression out
+				if la := affineOf(lengthVal, 0); len(la.T) > 0 && !(len(la.T) == 1 && la.K == 0) {
+					rest := cur.add(la, -1)
+					clean := rest.K == 0
+					for sym := range la.T {
+						if _, still := rest.T[sym]; still {
+							clean = false
 						}
 					}
-					cur = next
-				}
-			}
-		}
-		var olds, lens, pads int64
-		if lengthVal != nil {
-			// dwLength computed once and used as a value: take its expression out
-			if la := affineOf(lengthVal, 0); len(la.T) > 0 && !(len(la.T) == 1 && la.K == 0) {
-				rest := cur.add(la, -1)
-				clean := rest.K == 0
-				for sym := range la.T {
-					if _, still := rest.T[sym]; still {
-						clean = false
+					if clean {
+						cur, lens = rest, 1
 					}
 				}
-				if clean {
-					cur, lens = rest, 1
+			}
+			other := ""
+			otherUndecided := false
+			for sym, cf := range cur.T {
+				v := cur.Sym[sym]
+				switch {
+				case sym == "OLD":
+					olds = cf
+				case v != nil && isLenLoad(v):
+					lens += cf
+				default:
+					// a term that evaluates to the pad length for every dwLength
+					if pvals, okP := c.padFunction(v, isLenLoad); okP && pvals == pad8 {
+						pads += cf
+					} else if okP {
+						other = fmt.Sprintf("%s = %v for dwLength = 0..7 (mod 8), not the distance %v to the next multiple of 8", sym, pvals, pad8)
+					} else {
+						other = sym
+						otherUndecided = true
+					}
 				}
 			}
-		}
-		other := ""
-		otherUndecided := false
-		for sym, cf := range cur.T {
-			v := cur.Sym[sym]
-			switch {
-			case sym == "OLD":
-				olds = cf
-			case v != nil && isLenLoad(v):
-				lens += cf
-			default:
-				// a term that evaluates to the pad length for every dwLength
-				if pvals, okP := c.padFunction(v, isLenLoad); okP && pvals == pad8 {
-					pads += cf
-				} else if okP {
-					other = fmt.Sprintf("%s = %v for dwLength = 0..7 (mod 8), not the distance %v to the next multiple of 8", sym, pvals, pad8)
-				} else {
-					other = sym
-					otherUndecided = true
-				}
-			}
-		}
-		wantOld := int64(1)
-		if newTable {
-			wantOld = 0
-		}
-		switch {
-		case !touched:
-			bad = append(bad, "the directory Size is not updated on a successful path")
-		case otherUndecided && cur.K == 0:
-			c.R.Infof("M2.conserve", fname, "table+directory-paths", c.Pos(fn.Pos()), "not decided for this shape: the directory Size has a term that the alignment evaluator does not resolve ("+other+")")
-			undecidedPath = true
-		case other != "" || cur.K != 0:
-			bad = append(bad, "on a successful path the directory Size becomes "+cur.String()+" (an unexpected term: "+other+")")
-		case lens != 1 || pads != 1 || olds != wantOld:
-			kind := "an existing table"
+			wantOld := int64(1)
 			if newTable {
-				kind = "a new table"
+				wantOld = 0
 			}
-			bad = append(bad, fmt.Sprintf("for %s the directory Size becomes %s, want %d*old Size + dwLength + pad length (result #1 of the same PaddingBytes call)", kind, cur.String(), wantOld))
+			switch {
+			case !touched:
+				bad = append(bad, "the directory Size is not updated on a successful path")
+			case otherUndecided && cur.K == 0:
+				c.R.Infof("M2.conserve", fname, "table+directory-paths", c.Pos(fn.Pos()), "not decided for this shape: the directory Size has a term that the alignment evaluator does not resolve ("+other+")")
+				undecidedPath = true
+			case other != "" || cur.K != 0:
+				bad = append(bad, "on a successful path the directory Size becomes "+cur.String()+" (an unexpected term: "+other+")")
+			case lens != 1 || pads != 1 || olds != wantOld:
+				kind := "an existing table"
+				if newTable {
+					kind = "a new table"
+				}
+				bad = append(bad, fmt.Sprintf("for %s the directory Size becomes %s, want %d*old Size + dwLength + pad length (result #1 of the same PaddingBytes call)", kind, cur.String(), wantOld))
+			}
+			if len(bad) > 0 || undecidedPath {
+				break
+			}
 		}
 		if len(bad) > 0 || undecidedPath {
 			break
@@ -314,8 +386,8 @@ func checkC03(c *Ctx) {
 	if len(vas) == 0 && !sizeInRoot {
 		c.R.Infof("M3.address", fname, "table-address-branch", c.Pos(fn.Pos()), "not decided for this shape: the table address is not assigned in AppendSignature itself")
 		m3Decided = false
-	} else if len(vas) != 1 {
-		bad = append(bad, fmt.Sprintf("%d assignments of the table address", len(vas)))
+	} else if len(vas)+len(helperVAs) != 1 {
+		bad = append(bad, fmt.Sprintf("%d assignments of the table address", len(vas)+len(helperVAs)))
 	}
 	_ = m3Decided
 	// the address that is stored, wherever the choice between "keep" and "end of
@@ -346,7 +418,7 @@ func checkC03(c *Ctx) {
 				continue
 			}
 			id := ir.FieldID(ir.StripConv(cmp.X))
-			if gfr != av.root {
+			if gfr != av.root && id != vaField && id != sizeField {
 				id = ir.FieldID(ir.StripConv(av.resolveConv(cmp.X, gfr).v))
 			}
 			if k, isK := ir.ConstInt(cmp.Y); isK && k == 0 && (id == vaField || id == sizeField) {
@@ -359,7 +431,10 @@ func checkC03(c *Ctx) {
 				}
 			}
 		}
-		if len(cut) == 0 {
+		if len(cut) == 0 && gfr != av.root {
+			// in a helper the test may itself be made by a predicate the evaluator does not open
+			c.R.Infof("M3.address", fname, "table-address-branch", c.Pos(gf.Pos()), "not decided for this shape: the table address is assigned in "+name(gf)+" and no comparison of the old address or size with zero is recognised there")
+		} else if len(cut) == 0 {
 			bad = append(bad, "the table address is assigned without testing whether a table already exists")
 		} else if seen, _ := ir.Reach(gf, gf.Blocks[0], cut); seen[blk.Index] {
 			bad = append(bad, "the table address is overwritten although the image already has a certificate table")
@@ -367,6 +442,14 @@ func checkC03(c *Ctx) {
 	}
 	for _, st := range vas {
 		placed(st.Val, av.root, av.root, st.Block(), 0)
+	}
+	for _, st := range helperVAs {
+		// assigned in the helper that returns the updated entry: judged in the helper's frame
+		if hfr := av.frameOfCall(av.root, helperVACall[st]); hfr != nil {
+			placed(st.Val, hfr, hfr, st.Block(), 0)
+		} else {
+			c.R.Infof("M3.address", fname, "table-address-branch", c.IPos(st), "not decided for this shape: the table address is assigned in a helper outside the view of AppendSignature")
+		}
 	}
 	// p.length in Parse is the padded file size
 	var pv *deepView
@@ -753,4 +836,197 @@ func (c *Ctx) rulePadFresh(rule string) {
 	}
 	c.R.Check(bad == "", rule, name(fn), "fresh-zero-bytes", c.Pos(fn.Pos()), "padding handed out from shared memory is never written",
 		"PaddingBytes returns a slice of package-level memory at "+sharedAt+" and its result is written at "+bad+": every later padding carries those bytes instead of zeros")
+}
+
+// dirState is the certificate directory entry along one path: its Size as an
+// affine expression over the Size it had on entry ("OLD"), whether its address
+// was given a new value, whether the Size was assigned.
+type dirState struct {
+	cur      Affine
+	newTable bool
+	touched  bool
+}
+
+// dirTransform: call hands the directory entry by value (argument entryArg, -1
+// if none) to a library function that returns the updated entry
+// (dir = f(dir, ...)). The callee is evaluated path by path: the states the
+// returned entry can be in, given the state in, with the callee's parameters
+// replaced by the caller's arguments. vaStores are the stores that give the
+// address field a value other than the address the entry had.
+func dirTransform(call *ssa.Call, entryArg int, in dirState) (out []dirState, vaStores []*ssa.Store, ok bool) {
+	const dirT = "debug/pe.DataDirectory"
+	sizeField, vaField := dirT+".Size", dirT+".VirtualAddress"
+	callee := ir.Callee(call)
+	if callee == nil || callee.Blocks == nil || callee.Signature.Results().Len() != 1 || ir.NamedTypeID(callee.Signature.Results().At(0).Type()) != dirT {
+		return nil, nil, false
+	}
+	paths, complete := successPaths(callee, 64)
+	if !complete || len(paths) == 0 {
+		return nil, nil, false
+	}
+	var entryP *ssa.Parameter
+	if entryArg >= 0 && entryArg < len(callee.Params) && len(callee.Params) == len(call.Call.Args) {
+		entryP = callee.Params[entryArg]
+	}
+	isCell := func(v ssa.Value) *ssa.Alloc {
+		if a, isA := v.(*ssa.Alloc); isA && ir.NamedTypeID(a.Type()) == dirT {
+			return a
+		}
+		return nil
+	}
+	// the cells are only used field by field or as a whole value
+	escapes := false
+	instrsOf(callee, func(i ssa.Instruction) {
+		a, isA := i.(*ssa.Alloc)
+		if !isA || isCell(a) == nil {
+			return
+		}
+		for _, r := range *a.Referrers() {
+			switch y := r.(type) {
+			case *ssa.DebugRef:
+			case *ssa.UnOp:
+				if y.Op != token.MUL {
+					escapes = true
+				}
+			case *ssa.Store:
+				if y.Addr != ssa.Value(a) {
+					escapes = true
+				}
+			case *ssa.FieldAddr:
+				for _, rr := range *y.Referrers() {
+					switch z := rr.(type) {
+					case *ssa.DebugRef:
+					case *ssa.UnOp:
+						if z.Op != token.MUL {
+							escapes = true
+						}
+					case *ssa.Store:
+						if z.Addr != ssa.Value(y) {
+							escapes = true
+						}
+					default:
+						escapes = true
+					}
+				}
+			default:
+				escapes = true
+			}
+		}
+	})
+	if escapes {
+		return nil, nil, false
+	}
+	seenVA := map[*ssa.Store]bool{}
+	for _, path := range paths {
+		cells := map[*ssa.Alloc]*dirState{}
+		// the state of a whole entry value: the parameter, or what a cell holds
+		valState := func(v ssa.Value) *dirState {
+			if entryP != nil && v == ssa.Value(entryP) {
+				return &in
+			}
+			if ld, isLd := v.(*ssa.UnOp); isLd && ld.Op == token.MUL {
+				if a := isCell(ld.X); a != nil {
+					return cells[a]
+				}
+			}
+			return nil
+		}
+		// the state whose field fieldID the value v is (read before any update of it)
+		fieldOf := func(v ssa.Value, fieldID string) *dirState {
+			switch y := ir.StripConv(v).(type) {
+			case *ssa.Field:
+				if entryP != nil && y.X == ssa.Value(entryP) && ir.FieldID(y) == fieldID {
+					return &in
+				}
+			case *ssa.UnOp:
+				if fa, isFA := y.X.(*ssa.FieldAddr); isFA && y.Op == token.MUL && ir.FieldID(fa) == fieldID {
+					if a := isCell(fa.X); a != nil {
+						return cells[a]
+					}
+				}
+			}
+			return nil
+		}
+		subst := func(a Affine) Affine {
+			next := newAffine()
+			next.K = a.K
+			for sym, cf := range a.T {
+				v := a.Sym[sym]
+				if s := fieldOf(v, sizeField); v != nil && s != nil {
+					next = next.add(s.cur.scale(cf), 1)
+					continue
+				}
+				if p, isP := ir.StripConv(v).(*ssa.Parameter); v != nil && isP && len(callee.Params) == len(call.Call.Args) {
+					bound := false
+					for k, q := range callee.Params {
+						if q == p {
+							next = next.add(affineOf(call.Call.Args[k], 0).scale(cf), 1)
+							bound = true
+						}
+					}
+					if bound {
+						continue
+					}
+				}
+				next = next.add(symAffine(sym, v).scale(cf), 1)
+			}
+			return next
+		}
+		decided := true
+		for j, blk := range path {
+			for _, in2 := range blk.Instrs {
+				switch x := in2.(type) {
+				case *ssa.Alloc:
+					if isCell(x) != nil {
+						cells[x] = &dirState{cur: newAffine(), newTable: true, touched: true}
+					}
+				case *ssa.Store:
+					if a := isCell(x.Addr); a != nil {
+						s := valState(x.Val)
+						if s == nil {
+							decided = false
+							continue
+						}
+						cells[a] = &dirState{cur: s.cur.clone(), newTable: s.newTable, touched: s.touched}
+						continue
+					}
+					fa, isFA := x.Addr.(*ssa.FieldAddr)
+					if !isFA || isCell(fa.X) == nil || cells[isCell(fa.X)] == nil {
+						continue
+					}
+					cell := cells[isCell(fa.X)]
+					switch ir.FieldID(fa) {
+					case vaField:
+						if src := fieldOf(x.Val, vaField); src != nil {
+							cell.newTable = src.newTable
+						} else {
+							cell.newTable = true
+							if !seenVA[x] {
+								seenVA[x] = true
+								vaStores = append(vaStores, x)
+							}
+						}
+					case sizeField:
+						cell.cur = subst(affineOf(x.Val, 0))
+						cell.touched = true
+					}
+				case *ssa.Return:
+					res := x.Results[0]
+					if ph, isPhi := res.(*ssa.Phi); isPhi && ph.Block() == blk && j > 0 {
+						for k, pr := range blk.Preds {
+							if pr == path[j-1] {
+								res = ph.Edges[k]
+							}
+						}
+					}
+					if s := valState(res); s != nil && decided {
+						out = append(out, dirState{cur: s.cur.clone(), newTable: s.newTable, touched: s.touched})
+					} else {
+						return nil, nil, false
+					}
+				}
+			}
+		}
+	}
+	return out, vaStores, len(out) > 0
 }
